@@ -44,6 +44,8 @@ impl Path {
         }
 
         let mut cs = cs.unwrap().to_string();
+        // The text of this path as given (for a relative path: with its leading dot)
+        let full_text = cs.clone();
 
         // When components start with ".", it indicates a relative path, e.g.
         // .^.^.hello.5
@@ -70,7 +72,7 @@ impl Path {
         }
 
         let cs_cell = OnceCell::new();
-        let _ = cs_cell.set(cs);
+        let _ = cs_cell.set(full_text);
 
         Path {
             components,
